@@ -14,6 +14,7 @@ ALPHABET = [
     "reply", "reply_deflate", "reply_403", "reply_bad_accept", "reply_17k",
     "text", "text_frag", "cont_fin", "ping", "pong", "close_1000", "close_empty",
     "rsv_frame", "bad_utf8", "half_frame", "short_silence", "long_silence", "eof", "reset",
+    "silence",      # the server stays connected and says nothing more, ever (no EOF): only a timer can end this
 ]
 FIRST_ONLY = ["refused"]
 
@@ -67,6 +68,8 @@ def step_to_script(name):
         return [["eof", 0.0]]
     if name == "reset":
         return [["reset", 0.0]]
+    if name == "silence":
+        return []
     raise ValueError(name)
 
 
@@ -96,7 +99,25 @@ def policy_reactions(policy):
     raise ValueError(policy)
 
 
-def monitor(tr):
+def timer_must_end(tr, copts):
+    """With a silent but connected server, must some timeout end the connection?  Timers run
+    from Ready on: a ping timeout always applies, a close timeout once the client has written
+    a Close frame (its own close() or the echo of the server's)."""
+    names = tr.names()
+    if "ready" not in names:
+        return False
+    if copts.get("ping_timeout"):
+        return True
+    if copts.get("close_timeout", 30.0):
+        for e in tr.sim.log:
+            if e[0] == "send" and not e[2].startswith(b"GET "):
+                frames, _ = wire.decode_frames(e[2])
+                if any(f.opcode == wire.CLOSE for f in frames):
+                    return True
+    return False
+
+
+def monitor(tr, silent_end=False, copts=None):
     """The grammar of C07 as a pure function of the trace; returns (signature, detail) or None."""
     names = tr.names()
     if tr.hang:
@@ -104,7 +125,25 @@ def monitor(tr):
     if tr.escaped:
         return "escaped_exception", "%s; events %s" % (tr.escaped, names[-12:])
     if tr.horizon:
-        return "hang", "still running at the scenario horizon; events %s" % names[-12:]
+        if not silent_end:
+            return "hang", "still running at the scenario horizon; events %s" % names[-12:]
+        if timer_must_end(tr, copts or {}):
+            return "hang", ("the server went silent without closing; a configured timeout (%s) should have ended the "
+                            "connection, but iteration was still going at virtual time %s; last events %s" % (
+                                {k: v for k, v in (copts or {}).items() if "timeout" in k} or "close_timeout=30 (default)",
+                                tr.sim.now, names[-6:]))
+        # legitimately still connected: only the prefix grammar can be checked
+        if not names or names[0] != "connecting":
+            return "grammar", "first event is %r" % (names[:1],)
+        if any(n in TERMINAL for n in names):
+            return "grammar", "terminal event but iteration continues: %s" % names[-6:]
+        ready_at = names.index("ready") if "ready" in names else None
+        for i, n in enumerate(names):
+            if n in MESSAGE_LIKE and (ready_at is None or i < ready_at):
+                return "grammar", "%s (event %d) before Ready" % (n, i)
+        if names.count("ready") > 1 or names.count("connected") > 1:
+            return "grammar", "Ready/Connected repeated"
+        return None
     if not names or names[0] != "connecting":
         return "grammar", "first event is %r" % (names[:1],)
     if names.count("connecting") != 1:
@@ -160,14 +199,14 @@ class C07(Prop):
                     for pi in range(len(POLICIES)):
                         yield {"steps": ["refused"], "policy": pi, "opts": oi}
                 continue
-            if first in ("eof", "reset"):
+            if first in ("eof", "reset", "silence"):
                 tails = [()]
             else:
                 tails = itertools.product(ALPHABET, repeat=depth - 1)
             for tail in tails:
                 steps = [first] + list(tail)
                 # nothing can follow EOF/reset: keep only canonical representatives
-                cut = next((i for i, s in enumerate(steps) if s in ("eof", "reset")), None)
+                cut = next((i for i, s in enumerate(steps) if s in ("eof", "reset", "silence")), None)
                 if cut is not None and cut != len(steps) - 1:
                     continue
                 for oi in range(len(OPTION_SETS)):
@@ -201,7 +240,7 @@ class C07(Prop):
                                  "reply_17k", "text", "eof", "half_frame", "long_silence"])
         rest = st.lists(st.sampled_from(ALPHABET[5:17] + ["text", "ping", "short_silence"]), max_size=39)
         return st.fixed_dictionaries({
-            "first": first, "rest": rest, "end": st.sampled_from(["eof", "reset"]),
+            "first": first, "rest": rest, "end": st.sampled_from(["eof", "eof", "reset", "silence"]),
             "reactions": st.lists(rule, max_size=4), "copts": opts,
             "addrs": st.lists(st.sampled_from(["ok", "refused", "timeout", "sockerr"]), min_size=1, max_size=3),
         })
@@ -226,11 +265,13 @@ class C07(Prop):
         else:
             for s in steps:
                 script.extend(step_to_script(s))
-            if steps[-1] not in ("eof", "reset"):
+            if steps[-1] not in ("eof", "reset", "silence"):
                 script.append(["eof", 0.0])
             if addrs:
                 att["addrs"] = addrs
-        scn = build.scenario(script, connect_opts=copts, reactions=reactions, attempt_extra=att)
+        silent_end = steps[-1] == "silence"
+        scn = build.scenario(script, connect_opts=copts, reactions=reactions, attempt_extra=att,
+                             horizon=600.0 if silent_end else None)
         tr = simnet.run_scenario(scn)
         names = tr.names()
         faulty = bool(set(steps) & {"rsv_frame", "bad_utf8", "half_frame", "reset", "reply_17k"})
@@ -238,7 +279,9 @@ class C07(Prop):
         nontrivial = "ready" in names and (faulty or acted)
         for n in set(names):
             labels.add("ev:" + n)
-        bad = monitor(tr)
+        if silent_end:
+            labels.add("ends_in_silence")
+        bad = monitor(tr, silent_end, copts)
         if bad:
             return failed(bad[0], bad[1] + " | steps=%s" % steps, labels, nontrivial)
         return held(labels, nontrivial)
